@@ -51,6 +51,9 @@ func act(id string, args ...interface{}) error {
 		line += " " + fmt.Sprintf("%T:%q", a, fmt.Sprint(a))
 	}
 	fmt.Println(line)
+	if n := os.Getenv("VERIF_NOISE"); n != "" && strings.Contains(";"+os.Getenv("VERIF_SCEN"), ";"+id+"=") {
+		emitNoise(n) // what a body prints before it fails
+	}
 	for _, spec := range strings.Split(os.Getenv("VERIF_SCEN"), ";") {
 		kv := strings.SplitN(spec, "=", 2)
 		if len(kv) != 2 || kv[0] != id {
@@ -178,6 +181,26 @@ func act(id string, args ...interface{}) error {
 		}
 	}
 	return nil
+}
+
+// emitNoise writes a lot before the failure: one very long line (no newline inside) or 10 MiB of short lines, on
+// stderr (err...) or stdout (out...).
+func emitNoise(kind string) {
+	w := os.Stdout
+	if strings.HasPrefix(kind, "err") {
+		w = os.Stderr
+	}
+	switch strings.TrimPrefix(strings.TrimPrefix(kind, "err"), "out") {
+	case "70k":
+		w.WriteString(strings.Repeat("x", 70000) + "\n")
+	case "200k":
+		w.WriteString(strings.Repeat("y", 200000) + "\n")
+	case "10m":
+		chunk := strings.Repeat("noise line 0123456789 0123456789 0123456789 0123456789 01234567\n", 1024) // 64 KiB
+		for i := 0; i < 160; i++ {
+			w.WriteString(chunk)
+		}
+	}
 }
 
 // mkErr makes an error VALUE of the requested shape; what decides the exit status is only whether the value
@@ -697,6 +720,7 @@ def scen(fa=None, bd=None, start=True, pr=None, init_err=False, clean_err=False,
 SAMPLE_CODES = [1, 2, 3, 5, 7, 37, 64, 99, 100, 125, 126, 127, 128, 129, 130, 137, 143, 200, 250, 254, 255]
 CODE_KINDS = ["fatal", "fatalf", "panic-fatal", "osexit", "sh", "sh-dep", "deps-equal", "deps-diff", "deps-sametext-equal", "deps-sametext-diff"]
 SAME_TEXT = "step failed"
+NOISE_KINDS = ["err70k", "err200k", "out70k", "out200k", "err10m", "out10m"]     # VERIF_NOISE
 TEXT_KINDS = ["empty", "blank", "newline", "newlines", "big", "percent", "nul"]     # VERIF_TEXT: the text of every failure of the run
 KILL_SIGNALS = [9, 15, 1]          # SIGKILL, SIGTERM, SIGHUP: the Go runtime dies from them
 PLAIN_KINDS = ["error", "panic-error", "panic-string", "panic-int", "shnotran", "shsig", "shcopy"]
@@ -962,6 +986,15 @@ def line_cases(ctx):
     for l in lines:
         if l.get("text") is None and not l.get("msg") and l["fail"] not in ("none", "unknown", "missing", "badarg") and rng.random() < 0.12:
             l["text"] = rng.choice(TEXT_KINDS)
+    # the volume / shape of what a body prints before it fails: a 70 000 / 200 000-byte line (no newline inside) or 10 MiB of
+    # short lines, on stderr or stdout - the failure message must still arrive (it is looked for in the TAIL of stderr)
+    for noise in NOISE_KINDS:
+        kinds = ("error", "fatal") if noise.endswith("10m") else ("error", "fatal", "panic-string", "sh", "deps-diff", "plain-dep")
+        for kind in kinds:
+            l = gen_line(rng, kind, rng.choice([7, 5, 200]))
+            l["noise"] = noise
+            l["routes"] = "all"
+            lines.append(l)
     # error value shapes: as a target's result, as a dependency's result (alone / next to an mg.Fatal(3)), returned or
     # as an error-valued panic
     for shape in ALL_SHAPES:
@@ -1017,10 +1050,89 @@ def line_to_cases(ctx, l, idx):
         routes = ["mage", "hash"]       # a -compile'd binary killed by a signal has no exit status to look at
     for r in routes:
         c = dict(l)
-        c.update(route=r, proj="main", args=list(l["words"]), env=({"VERIF_MSG": l["msg"]} if l.get("msg") else ({"VERIF_TEXT": l["text"]} if l.get("text") else {})), want=({"exit": want[0], "ran": want[1], "tokens": want[2]} if decided else None),
+        c.update(route=r, proj="main", args=list(l["words"]), env=dict(({"VERIF_MSG": l["msg"]} if l.get("msg") else ({"VERIF_TEXT": l["text"]} if l.get("text") else {})), **({"VERIF_NOISE": l["noise"]} if l.get("noise") else {})), want=({"exit": want[0], "ran": want[1], "tokens": want[2]} if decided else None),
                  scen=scen(fa=fargs(nargs=len(l["words"]), hashfast=(r == "hash")), pr=prog(mentions=ments), child=("signaled" if killed else None)), line=idx)
         out.append(c)
     return out
+
+
+HEAD_FLAGS = {"clean", "compile", "h", "init", "l", "version", "d", "debug", "f", "goarch", "gocmd", "goos", "ldflags", "keep", "t", "v", "w",
+              "help"}
+SLICE_KINDS = ["error", "fatal", "fatalf", "panic-fatal", "panic-string", "panic-error", "sh", "osexit", "deps-diff", "deps-equal", "plain-dep",
+               "unknown", "badarg", "none"]
+
+
+def representative_slice(lines):
+    """one line per failure kind (as generated: random position and line length) plus two with a long stderr line before
+    the failure: what is re-run under every discovered knob / flag"""
+    out, seen = [], set()
+    for l in lines:
+        if l["fail"] in SLICE_KINDS and l["fail"] not in seen and not l.get("noise") and not l.get("text") and not l.get("msg"):
+            seen.add(l["fail"])
+            out.append(l)
+    noisy = [l for l in lines if l.get("noise") in ("err70k", "err200k")][:2]
+    return out + noisy
+
+
+def discover_flags(ctx, m):
+    """flags the front end of the tree under test documents in `mage -h` that are not in the list at HEAD:
+    [(name, takes_value)]"""
+    r = m.run(ctx.tmp, ["-h"])
+    found = []
+    for mm in re.finditer(r"(?m)^\s+-([A-Za-z][\w-]*)\b([^\n]*)", r["out"] + r["err"]):
+        name, rest = mm.group(1), mm.group(2)
+        if name not in HEAD_FLAGS and name not in [f for f, _ in found]:
+            found.append((name, "<" in rest))
+    return found
+
+
+def variant_cases(ctx, lines, tag, env_extra=None, arg_prefix=None, routes=("compiled", "hash", "mage")):
+    """the lines of the slice once more, with an extra environment variable or extra front-end flags; same expectations"""
+    out = []
+    for i, l in enumerate(lines):
+        l2 = dict(l, routes="all")
+        for c in line_to_cases(ctx, l2, 100000 + i):
+            if c["route"] not in routes:
+                continue
+            c["variant"] = tag
+            c["env"] = dict(c["env"], **(env_extra or {}))
+            if arg_prefix:
+                c["args"] = list(arg_prefix) + c["args"]
+            out.append(c)
+    return out
+
+
+def discovery_cases(ctx, m, lines):
+    """knobs (environment variables) and front-end flags of the tree under test that no model knows: they must not change
+    the status, which targets run, or the failure message - they become a dimension of the status scenarios"""
+    import depslib
+    cases = []
+    slice_ = representative_slice(lines)
+    knobs = depslib.discover_knobs()
+    flags = discover_flags(ctx, m)
+    ctx.coverage["discovered_knobs"] = knobs
+    ctx.coverage["discovered_flags"] = [f for f, _ in flags]
+    n = [0]
+
+    def value(v):
+        if v == "@FILE":
+            n[0] += 1
+            return os.path.join(ctx.tmp, "knob-%d.out" % n[0])
+        return v
+    for k in knobs:
+        for v in ("1", "true", "@FILE", "1s", "10ms"):
+            cases += variant_cases(ctx, slice_, "%s=%s" % (k, v), env_extra={k: value(v)})
+    for name, takes in flags:
+        for v in (("1s", "10ms", "@FILE", "t1") if takes else (None,)):
+            pre = ["-" + name] + ([value(v)] if takes else [])
+            # does the front end accept the value?  -version runs nothing and builds nothing
+            probe = m.run(ctx.tmp, pre + ["-version"])
+            if probe["rc"] == 0:
+                cases += variant_cases(ctx, slice_, "flag %s" % " ".join(pre), arg_prefix=pre, routes=("hash", "mage"))
+            else:
+                cases.append(dict(kind="table", name="new flag %s with a value it rejects" % " ".join(pre), proj="main", route="mage", args=pre + ["t1"], env={},
+                                  scen=scen(fa=fargs(parse="bad")), special=None, behs={}, want={"exit": 2, "ran": 0, "tokens": ["Error"]}, slot=None))
+    return cases
 
 
 def table_cases(ctx):
@@ -1527,6 +1639,7 @@ def run(ctx):
         for i, l in enumerate(lines):
             cases += line_to_cases(ctx, l, i)
         cases += table_cases(ctx)
+        cases += discovery_cases(ctx, m, lines)
     for c in cases:
         c["scen"]["build"]["gocache"] = gocache
     ctx.log("running %d cases" % len(cases))
